@@ -698,6 +698,8 @@ def macro_strategy(tier):
             "trace": st.integers(0, 5),  # with minDens 1e-3 this nuclide is present at 2.5e-4
             "realBlock": st.booleans(),
             "prodOrder": st.sampled_from([1, 3, 2, 4]),
+            "zeroEcapt": st.lists(st.integers(0, 5), max_size=2),
+            "zeroEfiss": st.lists(st.integers(0, 5), max_size=2),
             "deleteMode": st.sampled_from(["del", "del", "purge", "none"]),
             "delete": st.integers(0, 5),
         }
@@ -773,7 +775,8 @@ def macro_execute(case):
     out = Out()
     guard = _global_guard()
     common = {k: case[k] for k in ("base", "suffix", "nucs", "band", "dropRx", "dropBlocks", "dropFission", "fwChi")}
-    specs = [dict(common, kind=k, scale=sc, ng=case["ng"], gg=case["gg"], prodOrder=case.get("prodOrder", 1))
+    specs = [dict(common, kind=k, scale=sc, ng=case["ng"], gg=case["gg"], prodOrder=case.get("prodOrder", 1),
+                  zeroEcapt=case.get("zeroEcapt", []), zeroEfiss=case.get("zeroEfiss", []))
              for k, sc in zip(L.KINDS, case["scales"])]
     paths = _files(specs, "x")
     try:
@@ -851,7 +854,8 @@ def macro_execute(case):
             mnucs = L.spec_labels(specs[0])[0]
             if mode == "lacking" and len(mnucs) >= 2:
                 mnucs = mnucs[:-1]
-            mspec = dict(specs[0], nucs=mnucs, multVariant=case.get("multVariant", 1), scale=(case["scales"][0] + 1) % 4)
+            mspec = dict(specs[0], nucs=mnucs, multVariant=case.get("multVariant", 1), scale=(case["scales"][0] + 1) % 4,
+                         zeroEcapt=[z + 1 for z in case.get("zeroEcapt", [])], zeroEfiss=[z + 1 for z in case.get("zeroEfiss", [])])
             mpath = _files([mspec], "xm")[0]
             paths.append(mpath)
             mlib = L.reader("iso")(mpath)
@@ -984,6 +988,11 @@ def macro_execute(case):
                 mc = xc.MacroscopicCrossSectionCreator(minimumNuclideDensity=minD)
                 m = mc.createMacrosFromMicros(lib, blk, libType=libType)
                 _creator_compare(out, np, xc, m, coll, chi_coll, names, sel, G, ng, what, chi_dens=dens)
+                # the mode without scatter matrices: vectors as before, removal = absorption - n2n, no matrix entries
+                m0 = xc.MacroscopicCrossSectionCreator(buildScatterMatrix=False, minimumNuclideDensity=minD).createMacrosFromMicros(
+                    lib, blk, libType=libType)
+                _creator_compare(out, np, xc, m0, coll, chi_coll, names, sel, G, ng, what + ", buildScatterMatrix=False",
+                                 chi_dens=dens, prefix="creator-nomatrix", matrices=False)
                 # the block-list entry point must give each block the macros of the requested libType
                 blk.macros = None
                 ret = mc.createMacrosOnBlocklist(lib, [blk], libType=libType)
@@ -1251,13 +1260,18 @@ def _windows(labels, xsid):
     return res
 
 
-def _creator_compare(out, np, xc, m, coll, chi_coll, names, dens, G, ng, what, chi_dens=None, prefix="creator"):
+def _creator_compare(out, np, xc, m, coll, chi_coll, names, dens, G, ng, what, chi_dens=None, prefix="creator", matrices=True):
     """createMacrosFromMicros output against sums over exactly the collections ``coll`` (one per name).
 
     ``dens`` is the selected composition (nucNames, minimumNuclideDensity applied); ``chi_dens`` the whole block's
     (computeBlockAverageChi is documented to use the block)."""
     nn = len(names)
     chi_dens = dens if chi_dens is None else chi_dens
+
+    def dense(x):
+        if x is None and not matrices:
+            return np.zeros((G, G))
+        return x.toarray() if hasattr(x, "toarray") else np.asarray(x)
 
     def refsum(arrs):
         tot = np.zeros(arrs[0].shape)
@@ -1281,12 +1295,15 @@ def _creator_compare(out, np, xc, m, coll, chi_coll, names, dens, G, ng, what, c
     _close(out, m.absorption, absw, absm, prefix + "/absorption", what)
     mats = {}
     for rx in xc.BASIC_SCAT_MATRIX:
-        arrs = [np.zeros((G, G)) if getattr(c, rx) is None else getattr(c, rx).toarray() for c in coll]
+        if matrices:
+            arrs = [np.zeros((G, G)) if getattr(c, rx) is None else getattr(c, rx).toarray() for c in coll]
+        else:  # buildScatterMatrix=False: "no ng x ng matrices will be built" (absent or without entries)
+            arrs = [np.zeros((G, G)) for _c in coll]
         mats[rx], mags[rx] = refsum(arrs)
-        _close(out, m[rx].toarray(), mats[rx], mags[rx], prefix + "/scatter-matrix", "%s %s" % (what, rx))
+        _close(out, dense(m[rx]), mats[rx], mags[rx], prefix + "/scatter-matrix", "%s %s" % (what, rx))
     tot = mats["elasticScatter"] + mats["inelasticScatter"] + 2.0 * mats["n2nScatter"]
     totm = mags["elasticScatter"] + mags["inelasticScatter"] + 2.0 * mags["n2nScatter"]
-    _close(out, m.totalScatter.toarray(), tot, totm, prefix + "/total-scatter", what)
+    _close(out, dense(m.totalScatter), tot, totm, prefix + "/total-scatter", what)
     rem = absw - vec["n2n"] + tot.sum(axis=0) - np.diag(tot)
     remm = absm + mags["n2n"] + totm.sum(axis=0) + np.diag(totm)
     _close(out, m.removal, rem, remm, prefix + "/removal", what)
@@ -1406,7 +1423,7 @@ PARTS = [
               "after every step the target is compared with a union model (compatible step) or with its own previous snapshot "
               "(conflicting step must raise); final snapshots of all orders compared pairwise; non-trivial = >= 2 libraries "
               "with >= 2 nuclides"),
-    Part("macro_sums", macro_execute, strategy=macro_strategy, budget={"quick": 360, "thorough": 12000},
+    Part("macro_sums", macro_execute, strategy=macro_strategy, budget={"quick": 320, "thorough": 12000},
          procs={"quick": 8, "thorough": 16},
          rule="Hypothesis: an ISOTXS+GAMISO+PMATRX family merged in a drawn order; compositions with zero densities, the empty "
               "composition, missing nuclides; computeMacroscopicGroupConstants (16 constants), the four energy-constant "
